@@ -53,13 +53,16 @@ def resolve_traces(scn, root):
         tag, val = engine.fork_call(_count_pass, (scn, croot))
         shutil.rmtree(croot, ignore_errors=True)
         frac = f.pop('trace_frac')
-        n = 0
+        site = f.pop('trace_site', 'any')
+        sites = ''
         if tag == 'ok':
             for dt, k, cnt in val:
                 if dt == f['dt'] and k == f['k']:
-                    n = cnt
+                    sites = cnt
+        n = len(sites)
         if n > 0:
-            f['trace'] = min(n, 1 + int(frac * n))
+            cand = [i + 1 for i, c in enumerate(sites) if c == site] or list(range(1, n + 1))
+            f['trace'] = cand[min(len(cand) - 1, int(frac * len(cand)))]
             f['trace_of'] = n
         else:
             f['trace'] = 0          # never fires: that execution does not happen / has no events
@@ -94,7 +97,7 @@ def evaluate(task, root):
 
 def make_sample(rec):
     scn = rec['scn']
-    files, meta = W.render_world(scn['world'])
+    files, meta = W.render_world(scn['world'], scn.get('env', {}))
     texts = {}
     for e in rec['execs'][:2]:
         m = meta.get(e['dtid'])
@@ -309,10 +312,10 @@ def minimise(profile, scn, rule, budget_s=25.0, log=None):
 # ----------------------------------------------------------------------------
 
 def write_replay(profile, v, scn, note=''):
-    files, meta = W.render_world(scn['world'])
+    files, meta = W.render_world(scn['world'], scn.get('env', {}))
     h = hashlib.sha256(W.dumps(scn).encode()).hexdigest()[:10]
     name = '%s-%s-%s-%s.json' % (profile, v['rule'].replace('.', '_'), scn.get('seed', 'x'), h)
-    path = os.path.join(VERIF, 'replays', name)
+    path = os.path.join(os.environ.get('VERIF_REPLAY_DIR') or os.path.join(VERIF, 'replays'), name)
     os.makedirs(os.path.dirname(path), exist_ok=True)
     with open(path, 'w') as f:
         json.dump({'property': profile, 'rule': v['rule'], 'detail': v['detail'], 'where': v.get('where'),
@@ -528,8 +531,9 @@ def run_check(pid, tier, seed, jobs, n_override=None, budget=None, out=print):
         },
         'assumptions': getattr(prof, 'ASSUMPTIONS', []),
     }
-    os.makedirs(os.path.join(VERIF, 'evidence'), exist_ok=True)
-    with open(os.path.join(VERIF, 'evidence', pid + '.json'), 'w') as f:
+    evdir = os.environ.get('VERIF_EVIDENCE_DIR') or os.path.join(VERIF, 'evidence')
+    os.makedirs(evdir, exist_ok=True)
+    with open(os.path.join(evdir, pid + '.json'), 'w') as f:
         json.dump(evidence, f, indent=1, sort_keys=True, default=str)
     out('%s %s: %d scenarios, %d distinct non-trivial, %d determinism pairs, %d new violation(s), %.1fs' % (
         pid, tier, n_done, len(nontrivial_digests), det_pairs, len(new), wall))
